@@ -252,9 +252,16 @@ class Ctx:
         """lhs == rhs, discharged by syntactic identity after simplification when possible (no solver search),
         otherwise as an ordinary obligation; assumed afterwards"""
         a, b = z3.simplify(T.zr(lhs)), z3.simplify(T.zr(rhs))
-        if z3.eq(a, b):
+        same = z3.eq(a, b) or T.canon_str(a) == T.canon_str(b)
+        if not same:
+            # identical up to the order in which z3 happened to normalise: decided without any hypothesis
+            s0 = z3.Solver()
+            s0.set("timeout", 3000)
+            s0.add(T.zr(lhs) != T.zr(rhs))
+            same = s0.check() == z3.unsat
+        if same:
             ob = self.oblige(name, True, kind, note)
-            ob.backend = "syntactic identity after z3.simplify"
+            ob.backend = "term identity (z3.simplify / hypothesis-free arithmetic normalisation)"
         else:
             ob = self.oblige_linear(name, T.zr(lhs) == T.zr(rhs), kind, note)
         self.pc.append(T.zr(lhs) == T.zr(rhs))
